@@ -151,12 +151,26 @@ def run_component(name, pi, seed, labelers):
         states = [sl(i) for i in range(spec.n)]
         if name == 'laostar':
             from msdm.algorithms.laostar import LAOStar
-            res = LAOStar(heuristic=lambda s: 0.0, seed=seed).plan_on(mdp)
-            return canon([res.initial_value, dict(res.state_value_map), {s: dict(res.policy.action_dist(s).items()) for s in states}])
+            planner = LAOStar(heuristic=lambda s: 0.0, seed=seed)
+            outs = []
+            for _ in range(2):      # the same object, used twice
+                res = planner.plan_on(mdp)
+                outs.append(canon([res.initial_value, dict(res.state_value_map), {s: dict(res.policy.action_dist(s).items()) for s in states},
+                                   {repr(s): [repr(a) for a in n['action_order']] for s, n in res.explicit_graph.states_to_nodes.items()}]))
+            if outs[0] != outs[1]:
+                raise SecondCallDiffers(name)
+            return outs[0]
         if name == 'lrtdp':
             from msdm.algorithms.lrtdp import LRTDP
-            res = LRTDP(heuristic=lambda s: 0.0, seed=seed, randomize_action_order=True).plan_on(mdp)
-            return canon([res.initial_value, dict(res.V), {s: dict(res.policy.action_dist(s).items()) for s in states}])
+            planner = LRTDP(heuristic=lambda s: 0.0, seed=seed, randomize_action_order=True)
+            outs = []
+            for _ in range(2):
+                res = planner.plan_on(mdp)
+                outs.append(canon([res.initial_value, dict(res.V), {s: dict(res.policy.action_dist(s).items()) for s in states},
+                                   {repr(k): [repr(a) for a in v] for k, v in res.action_orders.items()}]))
+            if outs[0] != outs[1]:
+                raise SecondCallDiffers(name)
+            return outs[0]
         if name == 'astar':
             from msdm.algorithms.search import AStarSearch
             res = AStarSearch(seed=seed, tie_breaking_strategy='random', randomize_action_order=True).plan_on(mdp)
@@ -172,12 +186,24 @@ def run_component(name, pi, seed, labelers):
         if name in ('qlearning', 'sarsa', 'expectedsarsa', 'doubleq'):
             import msdm.algorithms.tdlearning as td
             cls = {'qlearning': td.QLearning, 'sarsa': td.SARSA, 'expectedsarsa': td.ExpectedSARSA, 'doubleq': td.DoubleQLearning}[name]
-            res = cls(episodes=6, step_size=0.5, rand_choose=0.3, softmax_temp=0.5, seed=seed).train_on(mdp)
-            return canon([{s: dict(v) for s, v in dict(res.q_values).items()}, res.event_listener_results.episode_rewards])
+            learner = cls(episodes=6, step_size=0.5, rand_choose=0.3, softmax_temp=0.5, seed=seed)
+            outs = []
+            for _ in range(2):
+                res = learner.train_on(mdp)
+                outs.append(canon([{s: dict(v) for s, v in dict(res.q_values).items()}, res.event_listener_results.episode_rewards]))
+            if outs[0] != outs[1]:
+                raise SecondCallDiffers(name)
+            return outs[0]
         if name == 'rmax':
             from msdm.algorithms.rmax import RMAX
-            res = RMAX(episodes=4, rmax=float(np.max(mdp.reward_matrix)), num_transition_samples=2, seed=seed).train_on(mdp)
-            return canon([{s: dict(v) for s, v in res.q_values.items()}, res.event_listener_results.episode_rewards])
+            learner = RMAX(episodes=4, rmax=float(np.max(mdp.reward_matrix)), num_transition_samples=2, seed=seed)
+            outs = []
+            for _ in range(2):
+                res = learner.train_on(mdp)
+                outs.append(canon([{s: dict(v) for s, v in res.q_values.items()}, res.event_listener_results.episode_rewards]))
+            if outs[0] != outs[1]:
+                raise SecondCallDiffers(name)
+            return outs[0]
         if name == 'bpi':
             from msdm.algorithms.fscboundedpolicyiteration import FSCBoundedPolicyIteration
             res = FSCBoundedPolicyIteration(controller_state_count=2, iterations=3, seed=seed).train_on(mdp)
@@ -232,6 +258,10 @@ def run_component(name, pi, seed, labelers):
     raise HarnessError('unknown component ' + name)
 
 
+class SecondCallDiffers(Exception):
+    """the same seeded object gave a different result on its second call"""
+
+
 def global_states():
     import torch
     return (random.getstate(), tuple(map(lambda x: x.tolist() if hasattr(x, 'tolist') else x, np.random.get_state())),
@@ -279,6 +309,9 @@ def check(item, tier):
                     out = run_component(c, pi, sd, lab)
                 except HarnessError:
                     raise
+                except SecondCallDiffers:
+                    r.violation('same_object_second_call_differs', {'component': c, 'seed': sd, 'prior_state': k}, item)
+                    break
                 except Exception as e:
                     r.violation('component_exception', {'component': c, 'seed': sd, 'error': repr(e)[:300]}, item)
                     break
